@@ -303,16 +303,6 @@ fn analyse_globals(context: &mut GenerateContext) -> Result<(), GenerateError> {
                 declarator
             };
 
-            let init = if def.storage_class == ir::GlobalStorage::Static {
-                generate_initializer(
-                    &context.module.global_registry[id.0 as usize].init,
-                    context.module.global_registry[id.0 as usize].type_id,
-                    context,
-                )?
-            } else {
-                None
-            };
-
             let param = ast::FunctionParam {
                 param_type,
                 declarator,
@@ -329,7 +319,8 @@ fn analyse_globals(context: &mut GenerateContext) -> Result<(), GenerateError> {
                 argument,
                 base_type,
                 base_declarator,
-                init,
+                // Generated below once the required globals of all functions are known
+                init: None,
             }
         };
 
@@ -408,6 +399,29 @@ fn analyse_globals(context: &mut GenerateContext) -> Result<(), GenerateError> {
             .insert(id, required_globals)
             .is_none();
         assert!(valid_insert);
+    }
+
+    // Generate the initializers for static variables
+    // These may call functions so must be generated after we know the arguments each function requires
+    for i in 0..context.module.global_registry.len() {
+        let id = ir::GlobalId(i as u32);
+        let def = &context.module.global_registry[id.0 as usize];
+
+        if def.storage_class != ir::GlobalStorage::Static
+            || !matches!(
+                context.global_variable_modes.get(&id),
+                Some(GlobalMode::Parameter { .. })
+            )
+        {
+            continue;
+        }
+
+        let generated_init = generate_initializer(&def.init, def.type_id, context)?;
+
+        if let Some(GlobalMode::Parameter { init, .. }) = context.global_variable_modes.get_mut(&id)
+        {
+            *init = generated_init;
+        }
     }
 
     Ok(())
